@@ -1143,9 +1143,31 @@ def concrete_eval(ctx: Ctx, f: FunctionInfo, e: Optional[ast.AST], env: Dict[str
                     return v[idx]
         if not defs and isinstance(f.module.consts.get(e.id), ast.Dict):
             return DictVal(f.module.consts[e.id])  # type: ignore[arg-type]
-        if not defs and isinstance(f.module.consts.get(e.id), ast.Constant) and isinstance(f.module.consts[e.id].value, (str, int)) \
+        if not defs and isinstance(f.module.consts.get(e.id), ast.Constant) and isinstance(f.module.consts[e.id].value, (str, int, float)) \
                 and not isinstance(f.module.consts[e.id].value, bool):  # type: ignore[union-attr]
             return f.module.consts[e.id].value  # type: ignore[union-attr]  # a module-level named constant
+        if not defs and e.id in f.module.consts and isinstance(f.module.consts[e.id], (ast.Set, ast.Tuple, ast.BinOp, ast.Call, ast.Name)) \
+                and not (isinstance(f.module.consts[e.id], ast.Call) and dotted(f.module.consts[e.id].func) in ("float", "re.compile")) and depth < 10:
+            v_ = concrete_eval(ctx, f, f.module.consts[e.id], {}, ctx.cfg(f).entry, depth + 1)  # a set / tuple / union of named constants
+            if v_ is not UNKNOWN:
+                return v_
+        if not defs and e.id not in f.module.consts and e.id in f.module.imports and depth < 10:
+            # a constant imported from a sibling module (`from .storage_backend import ENV_TRUE_VALUES`)
+            tgt = f.module.imports[e.id]
+            om = ctx.prog.modules.get(tgt.rsplit(".", 1)[0]) if "." in tgt else None
+            if om is not None and tgt.rsplit(".", 1)[1] in om.consts:
+                anyf = next((x for x in ctx.prog.functions.values() if x.module is om and not isinstance(x.node, ast.Lambda)), None)
+                if anyf is not None:
+                    v_ = concrete_eval(ctx, anyf, ast.Name(id=tgt.rsplit(".", 1)[1], ctx=ast.Load()), {}, ctx.cfg(anyf).entry, depth + 1)
+                    if v_ is not UNKNOWN:
+                        return v_
+        if not defs and isinstance(f.module.consts.get(e.id), ast.Call) and dotted(f.module.consts[e.id].func) == "float" \
+                and len(f.module.consts[e.id].args) == 1 and isinstance(f.module.consts[e.id].args[0], ast.Constant) \
+                and isinstance(f.module.consts[e.id].args[0].value, str):  # type: ignore[union-attr]
+            try:
+                return float(f.module.consts[e.id].args[0].value)  # type: ignore[union-attr]  # _UNKNOWN = float("nan") / float("inf")
+            except ValueError:
+                return UNKNOWN
         return UNKNOWN
     if isinstance(e, ast.Attribute):
         dn_ = dotted(e)
@@ -1188,6 +1210,9 @@ def concrete_eval(ctx: Ctx, f: FunctionInfo, e: Optional[ast.AST], env: Dict[str
         return UNKNOWN if unknown else last
     if isinstance(e, ast.Compare) and len(e.ops) == 1:
         a, b = ev(e.left), ev(e.comparators[0])
+        # NaN (the "unknown time" sentinel) is unordered: every ordering / equality test is False whatever the other side is
+        if any(isinstance(x, float) and x != x for x in (a, b)) and isinstance(e.ops[0], (ast.Lt, ast.LtE, ast.Gt, ast.GtE, ast.Eq, ast.NotEq)):
+            return isinstance(e.ops[0], ast.NotEq)
         if a is UNKNOWN or b is UNKNOWN:
             return UNKNOWN
         if isinstance(a, PartialTuple) or (isinstance(b, PartialTuple) and not isinstance(e.ops[0], (ast.In, ast.NotIn))):
@@ -1309,6 +1334,27 @@ def concrete_eval(ctx: Ctx, f: FunctionInfo, e: Optional[ast.AST], env: Dict[str
             if unknown_key:
                 return UNKNOWN
             return ev(e.args[1]) if len(e.args) > 1 else None
+    if isinstance(e, ast.Call) and (dotted(e.func) or "") in ("os.getenv", "os.environ.get") and "os.getenv()" in env and e.args:
+        v = env["os.getenv()"]  # scenario: what the environment variable holds (None = unset)
+        if v is None:
+            d_ = e.args[1] if len(e.args) > 1 else next((k.value for k in e.keywords if k.arg == "default"), None)
+            return ev(d_) if d_ is not None else None
+        return v
+    if isinstance(e, ast.Set):
+        vals = [ev(x) for x in e.elts]
+        return UNKNOWN if any(v is UNKNOWN for v in vals) else frozenset(vals)  # type: ignore[arg-type]
+    if isinstance(e, ast.Call) and isinstance(e.func, ast.Name) and e.func.id in ("frozenset", "set", "tuple", "list") and len(e.args) == 1 and not e.keywords:
+        v = ev(e.args[0])
+        if isinstance(v, (tuple, frozenset, list)) and not isinstance(v, PartialTuple):
+            return frozenset(v) if e.func.id in ("frozenset", "set") else tuple(v)
+        return UNKNOWN
+    if isinstance(e, ast.BinOp) and isinstance(e.op, ast.BitOr):
+        a, b = ev(e.left), ev(e.right)
+        if all(isinstance(x, (frozenset, tuple)) and not isinstance(x, PartialTuple) for x in (a, b)) and any(isinstance(x, frozenset) for x in (a, b)):
+            return frozenset(a) | frozenset(b)  # type: ignore[arg-type]  # a set display evaluates to a tuple of its members here
+        return UNKNOWN
+    if isinstance(e, ast.Call) and ("ret", id(e)) in env:
+        return env[("ret", id(e))]  # type: ignore[index]  # the carried result of a helper analysed in place
     if isinstance(e, ast.Call):
         fn = e.func
         if isinstance(fn, ast.Name) and fn.id == "isinstance" and len(e.args) == 2:
@@ -1327,6 +1373,9 @@ def concrete_eval(ctx: Ctx, f: FunctionInfo, e: Optional[ast.AST], env: Dict[str
         if isinstance(fn, ast.Name) and fn.id == "str" and len(e.args) == 1:
             v = ev(e.args[0])
             return v if isinstance(v, str) else UNKNOWN
+        if isinstance(fn, ast.Name) and fn.id == "float" and len(e.args) == 1 and isinstance(e.args[0], ast.Constant) \
+                and isinstance(e.args[0].value, str) and e.args[0].value.strip().lower() in ("nan", "inf", "-inf", "+inf"):
+            return float(e.args[0].value)
         if isinstance(fn, ast.Name) and fn.id == "bool" and len(e.args) == 1:
             v = ev(e.args[0])
             return UNKNOWN if v is UNKNOWN else bool(v)
@@ -1405,7 +1454,7 @@ def concrete_eval(ctx: Ctx, f: FunctionInfo, e: Optional[ast.AST], env: Dict[str
                 t = cal.funcs[0]
                 on_self = isinstance(fn, ast.Attribute) and isinstance(fn.value, ast.Name) and fn.value.id == (f.self_name() or "\x00")
                 pnames = [p_.name for p_ in t.params if not (t.cls is not None and not t.is_static and p_ is t.params[0])]
-                inner: Dict[str, object] = {}
+                inner: Dict[str, object] = {k_: v_ for k_, v_ in env.items() if isinstance(k_, str) and k_.endswith("()")}  # scenario hooks
                 if on_self and t.self_name():
                     for k_, v_ in env.items():
                         if isinstance(k_, str) and k_.startswith((f.self_name() or "self") + "."):
@@ -1567,6 +1616,8 @@ def explore(ctx: Ctx, f: FunctionInfo, starts: Iterable[int], env: Optional[Dict
             return store[e.id]
         scen = dict(env)
         scen.update({k: v for k, v in store.items() if isinstance(k, str) and not isinstance(v, Sym)})
+        # results of helpers analysed in place, for calls nested in a larger expression (`not self._mtime(p) < cutoff`)
+        scen.update({k: v for k, v in store.items() if isinstance(k, tuple) and len(k) == 2 and k[0] == "ret" and not isinstance(v, Sym)})  # type: ignore[misc]
         v = concrete_eval(ctx, f, e, scen, at)
         if v is UNKNOWN:
             inner = e
